@@ -50,11 +50,13 @@ DEFAULT_FINDINGS = [
      "what": "print / put items are written separated by a blank, and parentheses around a variable are not kept: "
              "`print (x) (-1);` is saved as `print X (-1);`, which loads as a call of a function X (rejected: undefined, "
              "or silently another program when a function X exists)"},
-    {"property": "C12", "id": KF_DO, "status": "known", "region": "BlocV.Roundtrip.doHead",
+    # repaired (1a89173): a fixed entry suppresses nothing; the driver no longer reports this region
+    {"property": "C12", "id": KF_DO, "status": "fixed", "commit": "1a89173", "region": "BlocV.Roundtrip.doHead",
      "site": "blocc/statement_do.cpp:DOStatement::unparse",
      "witness": "do (1 + 2);",
-     "what": "DOStatement::unparse does not write the keyword `do`: `do (1 + 2);` / `do 1;` / `do -x;` / `do \"s\";` are saved as "
-             "`(1 + 2);` / `1;` / `-X;` / `\"s\";`, which are not statements (only an expression that starts with a word loads again)"},
+     "what": "DOStatement::unparse did not write the keyword `do`: `do (1 + 2);` / `do 1;` / `do -x;` / `do \"s\";` were saved as "
+             "`(1 + 2);` / `1;` / `-X;` / `\"s\";`, which are not statements (only an expression that starts with a word loaded again); "
+             "now every DO statement is saved as `do ` + expression (also `t.concat(5);` written without the keyword: `do T.concat(5);`)"},
 ]
 
 BIN = [("+", 5), ("-", 5), ("*", 4), ("/", 4), ("%", 4), ("**", 2), ("power", 2), ("&", 7), ("|", 7), ("^", 7), ("<<", 6), (">>", 6),
@@ -372,9 +374,24 @@ FINDING_TEXTS = [
     ("x = 1;\nprint (x) (-1);\n", KF_PRINT),
     ("x = 1;\nput (x) (x + 1);\nprint 2 * (x) (1 + 2) * 3;\n", KF_PRINT),
     ("function x(a) return integer is begin return a * 100; end;\nx = 1;\nprint (x) (-1);\n", KF_PRINT),
-    ("do (1 + 2);\n", KF_DO),
-    ("do 1;\n", KF_DO),
-    ("x = 1;\ndo -x;\ndo \"s\";\ndo 2.5;\n", KF_DO),
+]
+
+# DO statements: the witnesses of the repaired finding C12.do_without_keyword (1a89173) and the other shapes of a saved DO
+# statement. Ordinary cases now (the property is REQUIRED on them); `do`-less expression statements are saved with the keyword.
+DO_TEXTS = [
+    "do (1 + 2);\n",
+    "do 1;\n",
+    "x = 1;\ndo -x;\ndo \"s\";\ndo 2.5;\n",
+    "x = 1;\ndo (x);\ndo ((x + 1));\ndo -(x);\ndo +x;\ndo ~x;\ndo !true;\ndo not true;\ndo (not true);\ndo - x ** 2;\n",
+    "do null;\ndo true;\ndo pi;\ndo 0x10;\ndo 1e3;\ndo \"\";\ndo (\"a\" + \"b\");\ndo 1 + 2 * 3;\ndo (1) + 2;\ndo 1 == 1 and 2 < 3;\n",
+    "t = tab(1, 0);\nt.concat(5);\ndo t.concat(6);\ndo (t).concat(8);\nprint t.count();\n",
+    "x = 1;\nx + 1;\nx;\nstrlen(\"abc\");\nnot true;\npi;\ntab(1, 2).count();\nu = tup(1, 2);\nu@1;\nu.set@1(5);\nprint u@1;\n",
+    "function f(a) return integer is begin return a + 1; end;\nf(1);\ndo f(2);\ndo (f(3) + 1);\ndo -f(4);\n",
+    "x = 0, do (x + 1);\na = 1, b = 2, do (a + b);\nc = 3, do 4;\n",
+    "x = 2;\nif x == 2 then do (x); else do -x; end if;\nwhile x < 4 loop x = x + 1; do (x * 2); end loop;\n"
+    "for i in 1 to 2 loop do (i); begin do \"s\"; do 1; exception when others then do (2); end; end loop;\n",
+    "function g() return integer is begin do (1 + 2); do 3; return 1; exception when others then do -1; return 0; end;\ndo g();\ndo (g());\n",
+    "do(1 + 2);\ndo(1);\ndo\n(2);\ndo /* c */ 3;\n",
 ]
 
 REJECTED = [
@@ -388,7 +405,7 @@ REJECTED = [
     "function f( return integer is begin return 1; end;\n", "function f(a b) return integer is begin return 1; end;\n",
     "function f(a:foo) return integer is begin return 1; end;\n", "function f return foo is begin return 1; end;\n",
     "function print return integer is begin return 1; end;\n", "print = 1;\n", "str = 1;\n", "x:foo;\n", "raise print;\n",
-    "then;\n", "end;\n", "loop;\n", "1;\n", "(1);\n", "\"s\";\n", "-1;\n", "a = 4.9e-324;\n", "a = 18446744073709551616;\n", "a = 0x10000000000000000;\n",
+    "then;\n", "end;\n", "loop;\n", "1;\n", "(1);\n", "\"s\";\n", "-1;\n", "t = tab(); (t).concat(7);\n", "(1 + 2);\n", "a = 4.9e-324;\n", "a = 18446744073709551616;\n", "a = 0x10000000000000000;\n",
     "a = 1e999;\n", "a = 1e-999;\n", "a = max(1);\n", "a = max(1, 2, 3);\n", "a = pi();\n", "a = str(1, 2);\n", "a = tab(1);\n", "a = floor();\n",
     "t = tab(); a = t.count(1);\n", "t = tab(); a = t.at();\n", "t = tab(); a = t.foo();\n", "t = tup(1); a = t@x;\n", "t = tup(1); a = t.set(1);\n",
     "a = 1 2;\n", "a = 1,, b = 2;\n", "x = 1; y = x(;\n", "a = 1 power;\n", "a = matches 1;\n", "a = 1.2.3;\n", "a = 1..2;\n",
@@ -405,7 +422,9 @@ class C12(Check):
             "exception clauses, print/put/do/return/raise/trace/nop, members, tuples, items, every built-in arity form, comments); "
             "(3) literal forms (all escapes, doubled quotes, prefixes, multi-line, every byte 1..255 except CR, hex, exponents, "
             "boundaries); (4) seeded random typed programs (vlib/progen.py) rendered with minimal, full and random parentheses; "
-            "(5) random strings / decimals / integers; (6) the witnesses of the recorded findings; (7) malformed texts that must be rejected. "
+            "(5) random strings / decimals / integers; (6) the witnesses of the recorded findings; (7) malformed texts that must be rejected; "
+            "(8) DO statements over every head (parenthesis, literal, sign, word), with and without the keyword in the source, nested and "
+            "chained (the property is required on all of them: DOStatement::unparse writes its keyword since 1a89173). "
             "Per text: harness op `c12` (parse, unparse, run; re-parse the text in a twin context, unparse, run) against driver "
             "command `unp` (model text, re-parse, second text, regions). distinct = source text.")
     assumptions = [
@@ -459,6 +478,8 @@ class C12(Check):
             T.append(("lit", s, None))
         for s, kf in FINDING_TEXTS:
             T.append(("finding", s, kf))
+        for s in DO_TEXTS:
+            T.append(("do", s, None))
         for s in REJECTED:
             T.append(("rejected", s, "rejected"))
         # every byte value in a string literal (CR is dropped by the reader: C13; NUL ends the chunk: C13)
